@@ -113,3 +113,31 @@ Definition spec_full (k : sys_case) : bool :=
     (flat_map op_names (sk_startup k) ++ flat_map (fun m => map fst m) (sn_cache (start_snap k)) ++ trace_names (sk_trace k))%list) data_types.
 
 Definition sys_check_full (k : sys_case) := (sys_check k, spec_full k).
+
+(** ---- endpoint-set keys under resolver lookups, and resolution after ANY history (sweeps included) ---- *)
+Definition cl_fview (c : scfg) (o : oracle) (pre : list op) (d : string) : fview := fold_left (fv_step c o TCl d) pre fv_init.
+
+(** the complete fold for an endpoint set: as [fv_step], except that a resolution looks up the endpoint set named by the
+    cluster it finds (read off the cluster's own complete fold over the history so far) *)
+Fixpoint ep_ffold (c : scfg) (o : oracle) (n : string) (pre : list op) (v : fview) (h : list op) : fview :=
+  match h with
+  | [] => v
+  | x :: r =>
+      let v' := match x with
+                | OResolve d =>
+                    match fv_val (cl_fview c o pre d) with
+                    | Some (VCl cl) => match c_inline cl with
+                                       | Some _ => v
+                                       | None => fv_lookup TEp n v TEp (c_epname cl)
+                                       end
+                    | _ => v
+                    end
+                | _ => fv_step c o TEp n v x
+                end in
+      ep_ffold c o n (pre ++ [x])%list v' r
+  end.
+Definition ep_fview (c : scfg) (o : oracle) (pre : list op) (n : string) : fview := ep_ffold c o n [] fv_init pre.
+
+Definition expected_resolution_full (c : scfg) (o : oracle) (pre : list op) (d : string) : option (list (string * N)) :=
+  resolve (match fv_val (cl_fview c o pre d) with Some (VCl cl) => GOk cl | _ => GErr end)
+          (fun e => match fv_val (ep_fview c o pre e) with Some (VEp x) => GOk x | _ => GErr end).
